@@ -14,6 +14,7 @@ import (
 	"sort"
 	"strings"
 	"sync"
+	"sync/atomic"
 	"time"
 
 	"github.com/ja7ad/otp/verifharness/ev"
@@ -41,6 +42,13 @@ type c19Case struct {
 }
 
 const c19Budget = 2_000_000
+
+// c19AllocBudget bounds the heap allocation of the whole process while ONE request (at most 1 MiB) is handled
+// in-process: the unchanged service needs < 100 MiB for its most expensive request; see max_alloc in the evidence.
+const c19AllocBudget = 2 << 30
+
+var c19MaxAlloc atomic.Uint64
+var c19MaxSteps atomic.Int64
 
 // c19MaxWait bounds the waiting (time.Sleep, timers) the handling of one request may ASK for; it equals the
 // server's own write timeout.  The quantity is the sum of the requested durations, not elapsed time.
@@ -153,7 +161,11 @@ func faultList() []fault {
 				}
 			}
 			if kind == 's' {
-				for i, sv := range []string{`""`, `" "`, `"\u0000"`, `"\ud800"`, mib, `"` + strings.Repeat("-", 70000) + `"`} {
+				for i, sv := range []string{`""`, `" "`, `"\u0000"`, `"\ud800"`, mib, `"` + strings.Repeat("-", 70000) + `"`,
+					// long texts that ALTERNATE between classes (a cleaning loop that handles one separator at a time
+					// does its worst on these): 100 KB and ~1 MiB
+					`"` + strings.Repeat("A-", 50000) + `"`, `"` + strings.Repeat("A ", 50000) + `"`, `"` + strings.Repeat("A-B C=", 87000) + `"`,
+					`"` + strings.Repeat("A-", 1<<19-4096) + `"`, `"` + strings.Repeat(" A", 1<<19-4096) + `"`, `"` + strings.Repeat("7=", 1<<19-4096) + `"`} {
 					m := validBody(p)
 					m[name] = sv
 					out = append(out, fault{fmt.Sprintf("%s %s=string#%d", p, name, i), rawReq("POST", p, bodyOf(m)), false})
@@ -372,6 +384,7 @@ func runFaults(c c19Case, base map[string]uint64) (obs, bad string) {
 		}
 		var resp restResp
 		irt.SetBudget(c19Budget)
+		irt.ArmAlloc(c19AllocBudget)
 		irt.VirtualTime(true)
 		irt.ResetWaited()
 		var pv any
@@ -386,10 +399,24 @@ func runFaults(c c19Case, base map[string]uint64) (obs, bad string) {
 		}
 		steps := irt.StepCount()
 		irt.SetBudget(0)
+		allocated := irt.Allocated()
+		if allocated > c19MaxAlloc.Load() {
+			c19MaxAlloc.Store(allocated)
+		}
+		irt.ArmAlloc(0)
+		if _, cut := irt.AllocExceeded(pv); !cut && allocated > c19AllocBudget {
+			return obs, fmt.Sprintf("fault %d (%s): %d MiB allocated for one request of %d bytes (budget %d MiB: work unbounded in a request parameter)", i, f.Name, allocated>>20, len(f.Req.body()), c19AllocBudget>>20)
+		}
+		if int64(steps) > c19MaxSteps.Load() {
+			c19MaxSteps.Store(int64(steps))
+		}
 		if w := irt.Waited(); w > c19MaxWait {
 			return obs, fmt.Sprintf("fault %d (%s): the handling of ONE request asks to wait %v in total (sleeps / timers; more than %v is not a bounded response time)", i, f.Name, w, c19MaxWait)
 		}
 		if pv != nil {
+			if a, ok := irt.AllocExceeded(pv); ok {
+				return obs, fmt.Sprintf("fault %d (%s): more than %d MiB allocated for one request of %d bytes (%d MiB when it was cut off: work unbounded in a request parameter)", i, f.Name, c19AllocBudget>>20, len(f.Req.body()), a>>20)
+			}
 			if irt.IsBudget(pv) {
 				return obs, fmt.Sprintf("fault %d (%s): more than %d statements of work for one request (work unbounded in a request parameter)", i, f.Name, int64(c19Budget))
 			}
@@ -519,6 +546,8 @@ type c19ChildResult struct {
 	Statuses         map[int]int
 	Distinct         []uint64
 	Fails            []c19ChildFail
+	MaxAlloc         uint64
+	MaxSteps         int64
 }
 
 func faultNames(fs []fault) []string {
@@ -666,6 +695,7 @@ func c19InProc(r *ev.Run, fl []fault, base map[string]uint64) {
 			out.Sched += st.Executions
 		}
 	}
+	out.MaxAlloc, out.MaxSteps = c19MaxAlloc.Load(), c19MaxSteps.Load()
 	out.States = int64(len(states))
 	for k := range states {
 		out.StateKeys = append(out.StateKeys, ev.H(k))
@@ -732,6 +762,12 @@ func c19RunChild(r *ev.Run) (res c19ChildResult, crashed *c19Case, note string) 
 		res.Trans += p.res.Trans
 		if p.res.Core > res.Core {
 			res.Core = p.res.Core
+		}
+		if p.res.MaxAlloc > res.MaxAlloc {
+			res.MaxAlloc = p.res.MaxAlloc
+		}
+		if p.res.MaxSteps > res.MaxSteps {
+			res.MaxSteps = p.res.MaxSteps
 		}
 		for st, c := range p.res.Statuses {
 			res.Statuses[st] += c
@@ -902,6 +938,7 @@ func c19(r *ev.Run) {
 		r.Distinct(h)
 	}
 	r.Set("depth2_core_classes", res.Core)
+	r.Set("per_request_maxima", map[string]any{"statements": res.MaxSteps, "statement_budget": int64(c19Budget), "allocated_bytes": res.MaxAlloc, "allocation_budget": uint64(c19AllocBudget), "requested_wait_budget": c19MaxWait.String()})
 	r.Set("first_fault_status_histogram", res.Statuses)
 	if crashed != nil {
 		r.Fail("service-crash", "the process serving the requests died while handling: "+strings.Join(faultNames(crashed.Faults), " ; ")+" — "+firstLine(crashNote), *crashed, "a complete response and a live process", crashNote)
